@@ -599,3 +599,68 @@ func (c *Ctx) IDXCLEAN(rule string) []report.Obligation {
 	}
 	return out
 }
+
+// ---------------------------------------------------------------------------
+// SPECIALFIRST: the table of special mergers is consulted before any generic decision. What an attribute's override
+// MEANS - a null that unsets `command`, a null `build` that is refused, a list that replaces instead of appending -
+// is the special merger's to say; a generic shortcut taken first (`if o == nil { return e }`) silently keeps the
+// base's value for exactly the attributes that have a rule. In the function that dispatches on override.mergeSpecials
+// every return is dominated by the range over the table.
+// ---------------------------------------------------------------------------
+func (c *Ctx) SPECIALFIRST(rule string) []report.Obligation {
+	var out []report.Obligation
+	n := 0
+	for _, fn := range c.P.Funcs {
+		if !strings.HasPrefix(c.P.FuncID(fn), "override.") || isInitFunc(fn) {
+			continue
+		}
+		var at *ssa.BasicBlock
+		for _, b := range fn.Blocks {
+			for _, in := range b.Instrs {
+				rng, ok := in.(*ssa.Range)
+				if !ok {
+					continue
+				}
+				if ld, isLd := rng.X.(*ssa.UnOp); isLd {
+					if g, isG := ld.X.(*ssa.Global); isG && isMergerTable(g) {
+						at = b
+					}
+				}
+			}
+		}
+		if at == nil {
+			continue
+		}
+		n++
+		good, pos := true, c.P.Pos(fn.Pos())
+		for _, r := range returnsOf(fn) {
+			if !at.Dominates(r.Block()) {
+				good, pos = false, c.P.InstrPos(r)
+			}
+		}
+		out = append(out, verdict(good, rule, c.P.FuncID(fn)+" :: the special mergers are consulted before any generic decision", pos,
+			"the range over mergeSpecials dominates every return", "the function can return before the table of special mergers was consulted: for an attribute that has a rule (command, entrypoint, healthcheck.test, build, …) the generic shortcut decides instead - an explicit `null` in the extending service or the later file keeps the base's value instead of unsetting it"))
+	}
+	if n == 0 {
+		out = append(out, bad(rule, "range over override.mergeSpecials", "", "anchor does not resolve on this tree; the rule cannot be decided (undecided means fail)"))
+	}
+	return out
+}
+
+// isMergerTable: a package-level map from tree.Path to a function of (base, override, path), whatever it is called.
+func isMergerTable(g *ssa.Global) bool {
+	pt, ok := g.Type().(*types.Pointer)
+	if !ok {
+		return false
+	}
+	m, ok := pt.Elem().Underlying().(*types.Map)
+	if !ok {
+		return false
+	}
+	k, ok := m.Key().(*types.Named)
+	if !ok || k.Obj().Name() != "Path" {
+		return false
+	}
+	sig, ok := m.Elem().Underlying().(*types.Signature)
+	return ok && sig.Params().Len() == 3 && sig.Results().Len() == 2
+}
